@@ -13,6 +13,11 @@ def run(ctx):
     t = system.record(ctx, "sys")
     system.validate(ctx, t, ["TrLife"], "general scenarios")
     system.engine_traces(ctx, t, "general scenarios")
+    # the request arriving exactly while a loop is finishing a batch of tasks (interleaving forced with the gates)
+    for tags in (["verif"] + (["verif poll_opt"] if ctx.thorough else [])):
+        t = system.record(ctx, "stoprace-" + tags.replace(" ", "+"), test="TestVerifStopRace", tags=tags, rounds=3 if ctx.thorough else 1)
+        system.validate(ctx, t, ["TrLife"], "shutdown request while a loop finishes a batch, " + tags)
+        system.engine_traces(ctx, t, "stoprace " + tags)
     if vlib.have_strace():
         # an accept error the loop does not survive (the descriptor table is full) ends the engine: that shutdown must be
         # as complete as a requested one
